@@ -136,21 +136,19 @@ def c09_b(ctx):
                   node=f.node)
     f = ctx.fn(M + ':metropolis')
     ex = ctx.ex(f)
-    rej = _metropolis_reject(ctx, f)
-    if rej is None:
-        ctx.bad(f, 'rejection test', 'no rejection branch found in the Metropolis loop', fn=f,
-                node=f.node)
-        return
-    ifn, cur, prev, buf, ii = rej
-    t = ex.raw(ifn.test)
-    parts = list(t[2]) if t[0] == 'bool' and t[1] == 'or' else [t]
-    has_inf = any(match(p, pattern('np.isinf({})'.format(cur))) is not None for p in parts)
-    has_nan = any(match(p, pattern('np.isnan({})'.format(cur))) is not None for p in parts)
-    has_fin = any(match(p, pattern('not np.isfinite({})'.format(cur))) is not None for p in parts)
+    r = _metropolis_roles(ctx, f)
+    if r is None or not r['restores']:
+        ctx.undecided('Metropolis loop shape not recognised')
+    cur = r['cur']
+    has_inf = any(match(p, pattern('np.isinf({})'.format(cur))) is not None for p in r['tests'])
+    has_nan = any(match(p, pattern('np.isnan({})'.format(cur))) is not None for p in r['tests'])
+    has_fin = any(match(p, pattern('not np.isfinite({})'.format(cur))) is not None
+                  for p in r['tests'])
     ctx.check((has_inf and has_nan) or has_fin, f, 'non-finite proposals rejected',
-              'reject when the proposed log-target is inf or NaN',
-              'the rejection test does not cover both infinite and NaN log-targets', fn=f,
-              node=ifn)
+              'previous state restored when the proposed log-target is inf or NaN',
+              'no branch restores the previous state for both infinite and NaN log-targets '
+              '(conditions found: {})'.format([show(t)[:40] for t in r['tests']]), fn=f,
+              node=r['restores'][0][2])
     # NUTS: a tree leaf is eligible only when the slice variable is below its joint density
     bt = [g for g in ctx.reachable([ctx.fn(M + ':nuts')], depth=1, may=False)
           if g.module.name == M and g.name != 'nuts' and
@@ -174,28 +172,59 @@ def c09_b(ctx):
               'density (which excludes -inf and NaN targets)', fn=g, node=g.node)
 
 
-def _metropolis_reject(ctx, f):
-    """(if node, current-name, previous-name, buffer-name, index-name) of the reject branch."""
+def _metropolis_roles(ctx, f):
+    """Roles in the Metropolis loop, discovered by dataflow (never by local names).
+
+    Returns dict(loop, ii, buf, cur, prev, cur_def, prev_def, restores=[(stmt, block, if)],
+    tests=[raw terms of the conditions under which a restore happens]) or None.
+    """
     ex = ctx.ex(f)
-    for n in own_nodes(f.node):
-        if isinstance(n, ast.If) and enclosing_loop(n) is not None:
-            for s in n.body:
-                if isinstance(s, ast.Assign) and isinstance(s.targets[0], ast.Name) and \
-                        isinstance(s.value, ast.Name):
-                    cur, prev = s.targets[0].id, s.value.id
-                    if contains(ex.raw(n.test), 'np.exp({} - {})'.format(cur, prev)) or \
-                            contains(ex.raw(n.test), 'np.exp({} - {})'.format(prev, cur)):
-                        lo = enclosing_loop(n)
-                        ii = lo.target.id if isinstance(lo, ast.For) and \
-                            isinstance(lo.target, ast.Name) else None
-                        buf = None
-                        for s2 in n.body:
-                            if isinstance(s2, ast.Assign) and \
-                                    isinstance(s2.targets[0], ast.Subscript) and \
-                                    isinstance(s2.targets[0].value, ast.Name):
-                                buf = s2.targets[0].value.id
-                        return n, cur, prev, buf, ii
-    return None
+    bufs = local_assigned(ctx, f, 'np.empty((n_samples + warmup + 1,) + params0.shape)')
+    loops = [n for n in own_nodes(f.node) if isinstance(n, ast.For) and
+             isinstance(n.target, ast.Name)]
+    if len(bufs) != 1 or not loops:
+        return None
+    buf, lo = bufs[0][0], loops[0]
+    ii = lo.target.id
+    cur_defs = [n for n in ast.walk(lo) if isinstance(n, ast.Assign) and
+                isinstance(n.targets[0], ast.Name) and
+                match(ex.raw(n.value), pattern('target({}[{}, :])'.format(buf, ii))) is not None]
+    if len(cur_defs) != 1:
+        return None
+    cur = cur_defs[0].targets[0].id
+    prev_defs = [n for n in lo.body if isinstance(n, ast.Assign) and
+                 isinstance(n.targets[0], ast.Name) and ex.raw(n.value) == ('name', cur)]
+    if len(prev_defs) != 1:
+        return None
+    prev = prev_defs[0].targets[0].id
+    restores = []
+    for n in ast.walk(lo):
+        if isinstance(n, ast.If):
+            for block in (n.body, n.orelse):
+                for s in block:
+                    if isinstance(s, ast.Assign) and \
+                            match(ex.raw(s.targets[0]), pattern('{}[{}, :]'.format(buf, ii))) \
+                            is not None and \
+                            match(ex.raw(s.value), pattern('{}[{} - 1, :]'.format(buf, ii))) \
+                            is not None:
+                        restores.append((s, block, n, block is n.body))
+    tests = []
+    for (s, block, ifn, in_body) in restores:
+        if in_body:
+            t = ex.raw(ifn.test)
+            if t[0] == 'name':
+                t = ex.raw1(ifn.test)
+            parts = list(t[2]) if t[0] == 'bool' and t[1] == 'or' else [t]
+            for p in parts:
+                if p[0] == 'name':
+                    # a named sub-condition
+                    for nme in ast.walk(ifn.test):
+                        if isinstance(nme, ast.Name) and nme.id == p[1]:
+                            p = ex.raw1(nme)
+                            break
+                tests.append(p)
+    return {'loop': lo, 'ii': ii, 'buf': buf, 'cur': cur, 'prev': prev, 'cur_def': cur_defs[0],
+            'prev_def': prev_defs[0], 'restores': restores, 'tests': tests}
 
 
 @obligation('C09-c', 'T4 T6', 'accept iff uniform draw < exp(new - old)', floor=2,
@@ -204,31 +233,21 @@ def _metropolis_reject(ctx, f):
 def c09_c(ctx):
     f = ctx.fn(M + ':metropolis')
     ex = ctx.ex(f)
-    rej = _metropolis_reject(ctx, f)
-    if rej is None:
-        raise AnchorMissing('Metropolis rejection branch')
-    ifn, cur, prev, buf, ii = rej
+    r = _metropolis_roles(ctx, f)
+    if r is None or not r['restores']:
+        ctx.undecided('Metropolis loop shape not recognised')
     g, _ = gen_name(ctx, f)
-    t = ex.raw(ifn.test)
-    parts = list(t[2]) if t[0] == 'bool' and t[1] == 'or' else [t]
-    ok = any(match(p, pattern('np.exp({} - {}) < {}.rand()'.format(cur, prev, g))) is not None
-             for p in parts)
+    want = pattern('np.exp({} - {}) < {}.rand()'.format(r['cur'], r['prev'], g))
+    ok = any(match(t, want) is not None for t in r['tests'])
     ctx.check(ok, f, 'rejection condition', 'reject when exp(new - old) < u',
-              'the rejection test is `{}` - not exp(new - old) < uniform draw'.format(
-                  src(ifn.test)[:120]), fn=f, node=ifn)
-    # new = target(proposed row); old = the value before
-    asg = [n for n in own_nodes(f.node) if isinstance(n, ast.Assign) and
-           isinstance(n.targets[0], ast.Name) and n.targets[0].id == cur and
-           enclosing_loop(n) is not None and not _inside(n, ifn)]
-    ok = len(asg) == 1 and match(ex.raw(asg[0].value),
-                                 pattern('target({}[{}, :])'.format(buf, ii))) is not None
-    pv = [n for n in own_nodes(f.node) if isinstance(n, ast.Assign) and
-          isinstance(n.targets[0], ast.Name) and n.targets[0].id == prev]
-    ok = ok and len(pv) == 1 and ex.raw(pv[0].value) == ('name', cur) and \
-        ctx.must_precede(f, [pv[0]], asg[0])
+              'no branch restores the previous state under exp(new - old) < uniform draw '
+              '(conditions found: {})'.format([show(t)[:50] for t in r['tests']]), fn=f,
+              node=r['restores'][0][2])
+    ok = ctx.must_precede(f, [r['prev_def']], r['cur_def']) and \
+        not _inside(r['cur_def'], r['restores'][0][2])
     ctx.check(ok, f, 'new and old log-target', 'old saved, then new = target(proposed row)',
               'the compared values are not (target of the proposed row, value before the '
-              'proposal)', fn=f, node=asg[0] if asg else ifn)
+              'proposal)', fn=f, node=r['cur_def'])
 
 
 @obligation('C09-d', 'T7', 'a rejected proposal restores both the state and its cached '
@@ -237,28 +256,42 @@ def c09_c(ctx):
 def c09_d(ctx):
     f = ctx.fn(M + ':metropolis')
     ex = ctx.ex(f)
-    rej = _metropolis_reject(ctx, f)
-    if rej is None:
-        raise AnchorMissing('Metropolis rejection branch')
-    ifn, cur, prev, buf, ii = rej
-    row = any(isinstance(s, ast.Assign) and
-              match(ex.raw(s.targets[0]), pattern('{}[{}, :]'.format(buf, ii))) is not None and
-              match(ex.raw(s.value), pattern('{}[{} - 1, :]'.format(buf, ii))) is not None
-              for s in ifn.body)
-    cache = any(isinstance(s, ast.Assign) and ex.raw(s.targets[0]) == ('name', cur) and
-                ex.raw(s.value) == ('name', prev) for s in ifn.body)
-    ctx.check(row, f, 'state row restored', 'samples[ii] = samples[ii - 1]',
-              'a rejected proposal is not replaced by the previous state', fn=f, node=ifn)
-    ctx.check(cache, f, 'cached log-target restored', 'current = previous',
-              'the cached log-target is not restored on rejection', fn=f, node=ifn)
-    # accepted branch keeps the proposal: no write to the row / cache in the else branch
-    bad = [s for s in ifn.orelse if isinstance(s, ast.Assign) and
-           (ex.raw(s.targets[0]) == ('name', cur) or
-            (isinstance(s.targets[0], ast.Subscript) and
-             isinstance(s.targets[0].value, ast.Name) and s.targets[0].value.id == buf))]
+    r = _metropolis_roles(ctx, f)
+    if r is None or not r['restores']:
+        ctx.undecided('Metropolis loop shape not recognised')
+    for (s, block, ifn, in_body) in r['restores']:
+        cache = any(isinstance(x, ast.Assign) and ex.raw(x.targets[0]) == ('name', r['cur']) and
+                    ex.raw(x.value) == ('name', r['prev']) for x in block)
+        ctx.check(cache, f, 'state and cached log-target restored together',
+                  'samples[ii] = samples[ii - 1] with current = previous',
+                  'a branch puts the previous state back but leaves the cached log-target of the '
+                  'rejected proposal in place', fn=f, node=s)
+    # no branch restores the cache without the row
+    for n in ast.walk(r['loop']):
+        if isinstance(n, ast.If):
+            for block in (n.body, n.orelse):
+                c = [x for x in block if isinstance(x, ast.Assign) and
+                     ex.raw(x.targets[0]) == ('name', r['cur']) and
+                     ex.raw(x.value) == ('name', r['prev'])]
+                rw = [x for (x, b, i, ib) in r['restores'] if b is block]
+                if c and not rw:
+                    ctx.bad(f, 'state and cached log-target restored together',
+                            'a branch restores the cached log-target but keeps the proposed state',
+                            fn=f, node=c[0])
+    # the keep path does not touch row or cache
+    keep_blocks = []
+    for (s, block, ifn, in_body) in r['restores']:
+        other = ifn.orelse if in_body else ifn.body
+        if other and not any(b is other for (x, b, i, ib) in r['restores']) and \
+                not (len(other) == 1 and isinstance(other[0], ast.If)):
+            keep_blocks.append(other)
+    bad = [x for blk in keep_blocks for x in blk if isinstance(x, ast.Assign) and
+           (ex.raw(x.targets[0]) == ('name', r['cur']) or
+            (isinstance(x.targets[0], ast.Subscript) and
+             isinstance(x.targets[0].value, ast.Name) and x.targets[0].value.id == r['buf']))]
     ctx.check(not bad, f, 'accepted proposal kept', 'no overwrite on acceptance',
               'the accepted branch overwrites the state or the cached log-target', fn=f,
-              node=bad[0] if bad else ifn)
+              node=bad[0] if bad else r['restores'][0][2])
 
 
 @obligation('C09-e', 'T5', 'the requested number of states is returned', floor=4,
@@ -272,7 +305,7 @@ def c09_e(ctx):
               node=bufs[0][1] if bufs else f.node)
     rr = returns(f)
     ok = len(rr) == 1 and bool(bufs) and match_any(
-        ex.raw(rr[0].value), ('{}[1 + warmup:, :]'.format(bufs[0][0]),
+        ex.raw1(rr[0].value), ('{}[1 + warmup:, :]'.format(bufs[0][0]),
                               '{}[warmup + 1:, :]'.format(bufs[0][0]),
                               '{}[1 + warmup:]'.format(bufs[0][0]))) is not None
     ctx.check(ok, f, 'warm-up and start point dropped', 'samples[1 + warmup:]',
@@ -300,7 +333,7 @@ def c09_e(ctx):
               node=bufs[0][1] if bufs else g.node)
     rr = returns(g)
     ok = len(rr) == 1 and bool(bufs) and match_any(
-        exg.raw(rr[0].value), ('{}[1:, :]'.format(bufs[0][0]), '{}[1:]'.format(bufs[0][0]))) \
+        exg.raw1(rr[0].value), ('{}[1:, :]'.format(bufs[0][0]), '{}[1:]'.format(bufs[0][0]))) \
         is not None
     ctx.check(ok, g, 'start point dropped', 'samples[1:]',
               'the returned slice is `{}`'.format(src(rr[0].value) if rr else None), fn=g,
@@ -318,12 +351,14 @@ def c09_f(ctx):
     f = ctx.fn(M + ':metropolis')
     ex = ctx.ex(f)
     g, _ = gen_name(ctx, f)
-    rej = _metropolis_reject(ctx, f)
-    if rej is None:
-        raise AnchorMissing('Metropolis loop')
-    ifn, cur, prev, buf, ii = rej
+    r = _metropolis_roles(ctx, f)
+    if r is None:
+        ctx.undecided('Metropolis loop shape not recognised')
+    buf, ii = r['buf'], r['ii']
+    ifn = r['restores'][0][2] if r['restores'] else r['loop']
     props = [n for n in own_nodes(f.node) if isinstance(n, ast.Assign) and
-             enclosing_loop(n) is not None and not _inside(n, ifn) and
+             enclosing_loop(n) is not None and
+             not any(n is x for (x, b, i, ib) in (r['restores'] or [])) and
              match(ex.raw(n.targets[0]), pattern('{}[{}, :]'.format(buf, ii))) is not None]
     ok = len(props) == 1 and match_any(
         ex.raw(props[0].value),
